@@ -218,23 +218,42 @@ def _call_weight(f, pv, c):
     if not _in_cycle(f, c.block):
         return 1
     best = None
+    done = set()
     for ni in f.all_insts():
-        if ni.op != 'phi':
+        if ni.op != 'phi' or ni.ref in done or ni.ty not in ('i64', 'i32'):
             continue
-        decs = [f.get(o) for o in ni.o if isinstance(o, str) and f.get(o) is not None and unit_step(f, o) == (ni.ref, -1)]
-        inits = [o for o in ni.o if not (isinstance(o, str) and f.get(o) is not None and unit_step(f, o) == (ni.ref, -1))]
+        # the quota may be carried through several merges (an iteration that only skips leaves it unchanged): the family
+        # of phis connected through their operands, its leaves being the initial values and the decrements
+        family, leaves, leaf_facts, work = set(), [], {}, [(ni.ref, None)]
+        while work:
+            r, fs = work.pop()
+            i2 = f.get(r) if isinstance(r, str) else None
+            if i2 is not None and i2.op == 'phi':
+                if r not in family:
+                    family.add(r)
+                    for v2, bb2 in zip(i2.o, i2.x['bb']):
+                        work.append((v2, pv.fc.edge_facts(f.bb[bb2], i2.block)))
+            else:
+                leaves.append(r)
+                leaf_facts.setdefault(r, []).append(fs)
+        decs = [f.get(o) for o in leaves if isinstance(o, str) and f.get(o) is not None and unit_step(f, o)[1] == -1 and unit_step(f, o)[0] in family]
+        inits = [o for o in leaves if not (isinstance(o, str) and f.get(o) is not None and unit_step(f, o)[1] == -1 and unit_step(f, o)[0] in family)]
         if not decs or not inits:
             continue
-        if ni.block is not c.block and _in_cycle(f, c.block, avoid=(ni.block,)):
+        done |= family
+        heads = [f.get(r) for r in family if f.dominates_block(f.get(r).block, c.block)]
+        if not any(not _in_cycle(f, c.block, avoid=(h.block,)) or h.block is c.block for h in heads):
             continue            # the call can repeat without passing the quota's loop head
-        if not (pv.prove_at(('ult', '#0', ni.ref), c) or pv.prove_at(('ne', ni.ref, '#0'), c)):
+        if not any(pv.prove_at(('ult', '#0', r), c) or pv.prove_at(('ne', r, '#0'), c) for r in family):
             continue
         if not all(f.dominates(c, d) for d in decs):
             continue
         bound = 0
         for o in inits:
-            for leaf, lb, lf in phi_leaves(f, pv.fc, o):
-                b = _leaf_bound(leaf, lf)
+            # the value as it arrives over each edge that carries it (a trip count min(remaining, quota) is bounded by the
+            # comparison made on that edge)
+            for lf in leaf_facts.get(o, [None]):
+                b = _leaf_bound(o, lf)
                 if b is None:
                     bound = None
                     break
